@@ -471,7 +471,11 @@ def canary(chk, binary):
     cases = [l.strip() for l in open(path) if l.strip() and not l.startswith("#")]
     impl = common.run_impl(binary, cases)
     model = common.run_model([c.replace("c03 ", "c03 order=orig ", 1) for c in cases])
-    agree = [c for c, m, i in zip(cases, model, impl) if compare(c, m, i) is None]
+    def fire_obs(line):
+        po = parse_out(line)
+        return None if po is None else sorted((k, r["obs"].replace("cb", "f")) for k, r in po["reqs"].items())
+    # judged on the property's observable alone (which tick fires each request), not on yield-site numbers
+    agree = [c for c, m, i in zip(cases, model, impl) if fire_obs(m) == fire_obs(i)]
     chk.cov["canary_cases"] = len(cases)
     chk.cov["canary_distinguished"] = len(cases) - len(agree)
     if agree and not chk.monitor_failures and not chk.divergences:
